@@ -52,6 +52,14 @@ def gen_program(rng, counters):
             if rng.random() < 0.6:
                 items.append(["@dw ", N(scope, fa), " + 2 & $ffff"])
             continue
+        if r < 0.30:
+            # a label defined by its QUALIFIED spelling in both renderings (`Main.helper:`): it is
+            # not a global label, so the local names after it still belong to the same scope
+            hn = f"h{len(items)}"
+            items.append([f"{scope}.{hn}:"])
+            items.append(["  nop"])
+            counters["direct_define"] = counters.get("direct_define", 0) + 1
+            continue
         loc = rng.choice(["x", "y", "z"]) + str(rng.randint(0, 2))
         pos = rng.choice(POSITIONS)
         have = (scope, loc) in defined
@@ -128,6 +136,7 @@ def run(tier, seed):
     rng = random.Random(seed)
     counters = {p: 0 for p in POSITIONS}
     counters["macro"] = 0
+    counters["direct_define"] = 0
     progs = []
     for _ in range(1500 if tier == "quick" else 20000):
         items = gen_program(rng, counters)
@@ -148,6 +157,10 @@ def run(tier, seed):
         ("@struct S\n f 1\n@endstruct\n@undef .f\n", None),
         ("@struct S\n f 1\n@endstruct\n@struct T\n h 1\n@endstruct\n@db .h\n", None),
         ("@macro M, 0\n@db .q\n@endmacro\nM\n", None),
+        ("Main:\n jmp .end\nMain.helper:\n nop\n.end:\n rts\n", "Main:\n jmp Main.end\nMain.helper:\n nop\nMain.end:\n rts\n"),
+        ("Main:\n@defl Main.k, 3\n@db .k\n@defn K2, 4\n.q:\n@dw .q\n", "Main:\n@defl Main.k, 3\n@db Main.k\n@defn K2, 4\nMain.q:\n@dw Main.q\n"),
+        ("@db @isdef .x\ng:\n", None),
+        ("@if ! @isdef .cfg\n@db 1\n@endif\ng:\n", None),
         ("g:\n.x:\n@db 1\n.x:\n", "g:\ng.x:\n@db 1\ng.x:\n"),
         ("g:\n@defn .x, 5\n.x:\n", "g:\n@defn g.x, 5\ng.x:\n"),
         ("g:\n.x:\ng.x:\n", "g:\ng.x:\ng.x:\n"),
